@@ -682,7 +682,10 @@ def eval_leaf(n, i: int, ctx: Ctx):
         if info.hdates is None:
             return None  # no (parsable) Date header: RFC 3501 does not say
         d = date_value(n[1], ctx, True)
-        c = set(info.hdates)
+        # RFC 3501 6.4.4: the Date: header "disregarding time and timezone", i.e. the date as written
+        # (the first version accepted the UTC date as well; seeded/C14-3 - parsedate() converting to
+        # UTC - showed that this made the oracle indifferent to exactly the clause it is about)
+        c = {info.hdates[0]}
         if k == "SENTBEFORE":
             return _agree(x < d for x in c)
         if k == "SENTON":
